@@ -483,6 +483,27 @@ def late_reader_worker(job):
     return acc
 
 
+def forwarded_worker(job):
+    """checks/c20.py's slow-consumer harness seen from this property: back-pressure across a forwarded connection
+    (socket write buffer full -> channel window closes -> far socket paused) with half-closes arriving before,
+    between and after: whatever the order, once the slow end reads, everything written arrives."""
+    import c20
+    acc = core.Acc()
+    for case in job:
+        viol, n = c20.slow_case(*case)
+        acc.add(core.digest(('forwarded',) + tuple(case)), transitions=n)
+        for k, d in viol:
+            if k in ('relay-mismatch', 'eof-not-propagated', 'livelock'):
+                acc.violation('forwarded:%s:%s:%s' % (k, case[0], case[4]), '%s ; case=%r' % (d, case), {'kind': 'forwarded', 'case': list(case)})
+    return acc
+
+
+def forwarded_jobs(tier):
+    import c20
+    cases = [c for j in c20.slow_jobs(tier) for c in j if tier == 'thorough' or (c[4] == 'after-eof' and c[0] != 'local-path')]
+    return [cases[i::16] for i in range(16)]
+
+
 def reading_handler_worker(job):
     """checks/c19.py's in-band harness with a small stream buffer (window 64), seen from this property: a handler
     that keeps reading by lines / n units while partial lines are interrupted by signals and size changes gets
@@ -532,6 +553,7 @@ def main(tier, seed):
     n_c = acc.evaluations - n_a - n_b
     acc.merge(core.pmap(late_reader_worker, late_reader_jobs(tier)))
     acc.merge(core.pmap(reading_handler_worker, reading_handler_jobs(tier), chunksize=2))
+    acc.merge(core.pmap(forwarded_worker, [j for j in forwarded_jobs(tier) if j]))
     rule = ('(a) sender: for (role, initial window, max packet, write list) every sequence of 5 '
             'WINDOW_ADJUST grants from a menu {pkt, 0, 1, rest, 2^32-1} with <= bound deviations, '
             'refpeer ledger never negative, packets <= max packet, everything delivered once enough is '
@@ -543,7 +565,9 @@ def main(tier, seed):
             '(buffer full, channel paused, window closed) before the application reads it through wait / communicate / '
             'both streams / read-then-wait: everything written arrives; a handler with a 64-byte stream buffer reading by lines / n units '
             'while partial lines are interrupted by signals and size changes, every interleaving of deliveries and reader calls '
-            'within the bound: it gets every byte')
+            'within the bound: it gets every byte; (e) forwarded connections with a consumer that stops reading (small socket '
+            'write buffer, so the back-pressure reaches the channel) and half-closes before / after the upload / before it reads again: '
+            'everything arrives, end of file after it')
     return core.finish(PROP, tier, seed, 'model_checking', acc, t0, rule,
                        {'sender_execs': n_a, 'receiver_execs': n_b, 'deadlock_execs': n_c,
                         'deviation_bound': 2 if tier == 'quick' else 3,
@@ -564,6 +588,9 @@ def replay(rep):
                 obs = c19.inband_run(c, core.Chooser(r['choices']))
                 if obs['flat'] is None or not obs['done'] or obs['flat'] != obs['sent']:
                     v.append(('reading-handler', repr(obs['viol'][:1])))
+    elif r['kind'] == 'forwarded':
+        import c20
+        v = [x for x in c20.slow_case(*r['case'])[0] if x[0] in ('relay-mismatch', 'eof-not-propagated', 'livelock')]
     elif r['kind'] == 'late-reader':
         import c09
         v = [x for x in c09.late_wait_case(*r['case'])['viol'] if x[0] in ('waiter-hung', 'output-incomplete', 'livelock')]
